@@ -6,7 +6,8 @@ Import ListNotations.
 
 Definition fl := PrimFloat.float.
 
-Definition redk (z : Z) : redkind := if (z =? 0)%Z then RSum else if (z =? 1)%Z then RMean else RAmax.
+Definition redk (z : Z) : redkind :=
+  if (z =? 0)%Z then RSum else if (z =? 1)%Z then RMean else if (z =? 2)%Z then RAmax else RAmin.
 Definition bits (l : list Z) : list bool := map (fun z => negb (z =? 0)%Z) l.
 
 (* the kernel trainers are always run with the shipped exponential half kernels *)
